@@ -142,7 +142,8 @@ void mmd_transclude_source(DString * source, const char * search_path, const cha
 
 	if (search_folder == NULL) {
 		// We don't have anywhere to search, so nothing to do
-		goto exit;
+		// (the stack used below does not exist yet, so there is nothing to tidy up either)
+		return;
 	}
 
 	// Make sure we use a parse tree for children
@@ -310,8 +311,6 @@ finish_file:
 
 		start = strstr(source->str + last_match, "{{");
 	}
-
-exit:
 
 	if (parsed == NULL) {
 		// Free temp stack
